@@ -15,6 +15,11 @@ import (
 	"google.golang.org/protobuf/reflect/protoreflect"
 )
 
+// emptyBytesNonNil: while parsing the message of an enc op carrying (meta emptybytes), the
+// unpopulated bytes fields of a j5 Any are stored as empty non-nil slices instead of being left
+// unset. The op text, and therefore the model's answer, is the same either way.
+var emptyBytesNonNil bool
+
 const (
 	fnTimestamp = "google.protobuf.Timestamp"
 	fnDate      = "j5.types.date.v1.Date"
@@ -412,9 +417,16 @@ func parseSingle(ts *typeSet, fd protoreflect.FieldDescriptor, n *node, newVal f
 			}
 			if bs := hexArg(2); bs != nil {
 				setByName(m, "proto", protoreflect.ValueOfBytes(bs))
+			} else if emptyBytesNonNil {
+				setByName(m, "proto", protoreflect.ValueOfBytes([]byte{}))
 			}
 			if bs := hexArg(3); bs != nil {
 				setByName(m, "j5_json", protoreflect.ValueOfBytes(bs))
+			} else if emptyBytesNonNil {
+				// same message as far as protobuf is concerned (the field is not populated), but the
+				// stored slice is empty and non-nil: an encoder reading it without Has() must not
+				// treat it as content
+				setByName(m, "j5_json", protoreflect.ValueOfBytes([]byte{}))
 			}
 		case fnAnyPb:
 			if n.head() != "any" || len(a) < 3 || a[0].atom != "pb" {
